@@ -10,7 +10,9 @@ import (
 	"encoding/json"
 	"fmt"
 	"os"
+	"runtime"
 	"sort"
+	"sync/atomic"
 	"time"
 )
 
@@ -53,6 +55,7 @@ type Out struct {
 	Samples  []any
 	start    time.Time
 	ticks    int
+	began    int64
 	sampled  int
 }
 
@@ -80,9 +83,32 @@ func (o *Out) Emit(v any) {
 	o.f.Write(b)
 }
 
-func (o *Out) Begin(id any) { o.Emit(map[string]any{"t": "begin", "case": id}) }
+func (o *Out) Begin(id any) {
+	o.Emit(map[string]any{"t": "begin", "case": id})
+	atomic.StoreInt64(&o.began, time.Now().UnixNano())
+}
+
 func (o *Out) End(id any, sigs []string) {
+	atomic.StoreInt64(&o.began, 0)
 	o.Emit(map[string]any{"t": "end", "case": id, "sigs": sigs})
+}
+
+// Watch starts a real-time watchdog (call it outside any synctest bubble): a
+// case that runs longer than limit makes the worker dump all goroutine stacks
+// and exit with status 3, which the driver reports as harness trouble.
+func (o *Out) Watch(limit time.Duration) {
+	go func() {
+		for {
+			time.Sleep(250 * time.Millisecond)
+			b := atomic.LoadInt64(&o.began)
+			if b != 0 && time.Since(time.Unix(0, b)) > limit {
+				o.Note("TIMEOUT")
+				buf := make([]byte, 1<<20)
+				os.Stderr.Write(buf[:runtime.Stack(buf, true)])
+				os.Exit(3)
+			}
+		}
+	}()
 }
 
 // Finding reports one violation candidate with the replayable case.
